@@ -83,3 +83,103 @@ def all_contracts(tier):
     cs = [death_vector_contract(0), death_vector_contract(1), transformer_contract(False), transformer_contract(True)]
     table = {(AMOD, "PersLandscapeApprox"): None}
     return cs, {"__class_summaries": {"PersLandscapeApprox": approx_summary}}
+
+
+# ----------------------------------------------------------------------------- vectorize: exact landscape sampled onto a grid
+# vectorize(l, start, stop, num_steps).values[d][i] == lambda_d(grid_i), lambda_d being the piecewise-linear function through the
+# critical points of depth d (np.interp through its contract D26: PL(x, d)); grid ends as given, else smallest / largest abscissa of
+# the first depth; every depth sampled; degree kept; the exact landscape is not modified.
+def vectorize_contract(given):
+    from pyvc.engine import LoopContract
+    from pyvc.models import AppendList, interp_pairs_term
+    from pyvc.values import Num, ite, to_z3
+    given = tuple(given)
+    EMOD = "persim/landscapes/exact.py"
+
+    def make_args(eng):
+        cls = eng.module(EMOD).lookup("PersLandscapeExact")
+        o = Obj(cls=cls)
+        X = z3.Function("X_cp", z3.IntSort(), z3.IntSort(), z3.RealSort())
+        Y = z3.Function("Y_cp", z3.IntSort(), z3.IntSort(), z3.RealSort())
+        L = z3.Function("L_cp", z3.IntSort(), z3.IntSort())
+        nd = eng.fresh_int("ndepths", lo=1)
+
+        def depth(d):
+            dl = Num(L(to_z3(d)))
+            eng.axiom(dl.t >= 1)
+            r = SymSeq(dl, lambda s: [Num(X(to_z3(d), to_z3(s))), Num(Y(to_z3(d), to_z3(s)))])
+            r.rowid = ("cp", d)
+            return r
+        cps = SymSeq(nd, depth)
+        hd = eng.fresh_int("hd", lo=0)
+        o.fields.update({"critical_pairs": cps, "hom_deg": hd, "dgms": [], "max_depth": nd})
+        args = {"l": o, "num_steps": eng.fresh_int("num_steps", lo=2)}
+        for nm in ("start", "stop"):
+            args[nm] = eng.fresh_real(nm + "_arg") if nm in given else None
+        return args, {"o": o, "cps": cps, "X": X, "Y": Y, "L": L, "nd": nd, "hd": hd, "old": dict(o.fields)}
+
+    def grid_ends(a):
+        e, g = a.eng, a.g
+        return a.start, a.stop
+
+    def inv(st):
+        e, g = st.eng, st.g
+        r, G = st.result, st.grid
+        if isinstance(r, list):
+            return [("one_sample_row_per_depth_so_far", lift(len(r)) == st.k, "S")]
+        return [("one_sample_row_per_depth_so_far", lift(r.n) == st.k, "S"),
+                ("rows_live_on_the_grid", st.each([(0, st.k)], lambda d: lift(r.get(d).shape[0]) == G.shape[0], name="vd"), "S"),
+                ("row_d_samples_the_function_of_depth_d", st.each([(0, st.k), (0, G.shape[0])], lambda d, i: lift(r.get(d).get(i)) == interp_pairs_term(e, "cp", G.get(i), d), name="vi"), "S")]
+
+    def havoc_result(st):
+        e = st.eng
+        k = st.env.lookup("__k_loop0")
+        G = st.env.lookup("grid")
+        uf = z3.Function(e.uniq("VR"), z3.IntSort(), z3.IntSort(), z3.RealSort())
+        return AppendList(k, lambda d: Arr((G.shape[0],), lambda idx: Num(uf(to_z3(d), to_z3(idx[0]))), dtype="float"))
+
+    def ensures(a, res):
+        e, g = a.eng, a.g
+        kw = getattr(getattr(res, "built", None), "kw", None) if not isinstance(res, ApproxResult) else res.kw
+        out = [("exact_landscape_untouched", all(g["o"].fields[k] is g["old"][k] for k in g["old"]) and set(g["o"].fields) == set(g["old"]), "P")]
+        if kw is None:
+            return out + [("returns_a_grid_landscape", False, "S")]
+        X, L = g["X"], g["L"]
+        out.append(("degree_kept", kw.get("hom_deg") is g["hd"], "P"))
+        out.append(("grid_size_as_requested", kw.get("num_steps") is a.num_steps, "P"))
+        s0 = z3.Int(e.uniq("q0"))
+        r0 = z3.And(s0 >= 0, s0 < L(0))
+        if "start" in given:
+            out.append(("grid_start_as_given", kw.get("start") is a.start, "P"))
+        else:
+            out.append(("grid_start_is_the_smallest_abscissa_of_the_first_depth", BoolV_(z3.And(z3.ForAll([s0], z3.Implies(r0, to_z3(lift(kw.get("start"))) <= X(0, s0))),
+                                                                                        z3.Exists([s0], z3.And(r0, to_z3(lift(kw.get("start"))) == X(0, s0))))), "P"))
+        if "stop" in given:
+            out.append(("grid_stop_as_given", kw.get("stop") is a.stop, "P"))
+        else:
+            out.append(("grid_stop_is_the_largest_abscissa_of_the_first_depth", BoolV_(z3.And(z3.ForAll([s0], z3.Implies(r0, to_z3(lift(kw.get("stop"))) >= X(0, s0))),
+                                                                                      z3.Exists([s0], z3.And(r0, to_z3(lift(kw.get("stop"))) == X(0, s0))))), "P"))
+        V = kw.get("values")
+        if not (isinstance(V, Arr) and V.ndim == 2):
+            return out + [("values_is_a_matrix", False, "S")]
+        out.append(("every_depth_sampled_on_the_grid", b_and(lift(V.shape[0]) == g["nd"], lift(V.shape[1]) == a.num_steps), "P"))
+        d = e.fresh_int("qd", lo=0, hi=g["nd"])
+        i = e.fresh_int("qi", lo=0, hi=a.num_steps)
+        start, stop = kw.get("start"), kw.get("stop")
+        node = lift(start) + lift(i) * ((lift(stop) - start) / (lift(a.num_steps) - 1))
+        out.append(("value_is_the_landscape_function_of_that_depth_at_the_grid_node", lift(V.get(d, i)) == interp_pairs_term(e, "cp", node, d), "S"))
+        return out
+    return Contract(TMOD, "vectorize", make_args, ensures=ensures, definedness="P", variant="given=%s" % ",".join(given),
+                    loops={0: LoopContract("for depth in l.critical_pairs", inv, cls="P", havoc={"result": havoc_result})})
+
+
+def BoolV_(t):
+    from pyvc.values import BoolV
+    return BoolV(t)
+
+
+def vectorize_contracts(tier):
+    EMOD = "persim/landscapes/exact.py"
+    table = {"__class_summaries": {"PersLandscapeApprox": approx_summary},
+             (EMOD, "PersLandscapeExact.compute_landscape"): Contract(EMOD, "PersLandscapeExact.compute_landscape", None, summary=lambda eng, pos, kw: None)}
+    return [vectorize_contract(()), vectorize_contract(("start", "stop"))] + ([vectorize_contract(("start",)), vectorize_contract(("stop",))] if tier != "quick" else []), table
